@@ -168,17 +168,20 @@ Definition dec_obs (s : sexp) : option obs :=
 Definition dec_mode (s : sexp) : option mode :=
   if is_sym "query" s then Some Query else if is_sym "mutation" s then Some Mutation else None.
 
-Record tcase := { c_mode : mode; c_plan : selset; c_ranks : list nat; c_obs : obs }.
+Record tcase := { c_mode : mode; c_plan : selset; c_ranks : list nat; c_pre : list bool;
+                  c_feat : list string; c_obs : obs }.
 
 Definition dec_case (c : sexp) : option tcase :=
   match tagged "case" c with
   | Some l =>
       match field1 "mode" l, field1 "plan" l, field1 "ranks" l, field "obs" l with
       | Some m, Some p, Some r, Some o =>
-          match dec_mode m, dec_sel p, as_list_of as_nat r, dec_obs (SL (SSym "obs" :: o)) with
-          | Some mm, Some pp, Some rr, Some oo =>
-              Some {| c_mode := mm; c_plan := pp; c_ranks := rr; c_obs := oo |}
-          | _, _, _, _ => None
+          match dec_mode m, dec_sel p, as_list_of as_nat r, dec_obs (SL (SSym "obs" :: o)),
+                (match field1 "pre" l with Some x => as_list_of as_bool x | None => Some [] end),
+                (match field "feat" l with Some x => map_opt as_sym x | None => Some [] end) with
+          | Some mm, Some pp, Some rr, Some oo, Some pre, Some ft =>
+              Some {| c_mode := mm; c_plan := pp; c_ranks := rr; c_pre := pre; c_feat := ft; c_obs := oo |}
+          | _, _, _, _, _, _ => None
           end
       | _, _, _, _ => None
       end
@@ -226,6 +229,19 @@ Fixpoint paths_perm (a b : list (list pelem)) : bool :=
   | p :: tl => match remove_path p b with Some b' => paths_perm tl b' | None => false end
   end.
 
+Definition event_eqb (a b : event) : bool :=
+  match a, b with
+  | EStart p, EStart q => path_eqb p q
+  | EFulfil p, EFulfil q => path_eqb p q
+  | _, _ => false
+  end.
+Fixpoint events_eqb (a b : list event) : bool :=
+  match a, b with
+  | [], [] => true
+  | x :: xs, y :: ys => event_eqb x y && events_eqb xs ys
+  | _, _ => false
+  end.
+
 (** ** The oracle: what C02 demands of the implementation's output, given the plan *)
 (** [has_blank_key] is Fut/FutSpec.v's *)
 Fixpoint has_dup_err (l : list (list pelem * nat)) : bool :=
@@ -267,6 +283,27 @@ Definition oracle (root : selset) (o : obs) : option sexp :=
              else None
          end.
 
+(** the literal reading of "the same error for every null left visible": the error reported for a
+    visible failure-null is the one the synchronous reference reports for it.  The code does not
+    guarantee this when several errors are admissible at one site (known finding
+    admissible-error-differs); evaluated after the correspondence comparison. *)
+Definition soft_oracle (root : selset) (o : obs) : option sexp :=
+  let ss := sites root in
+  let ref := run_sync root in
+  let at_site (paths : list (list pelem)) (s : site) : option (list pelem) :=
+      find (fun ep => match lands_at ss ep with Some p => path_eqb p (fst s) | None => false end) paths in
+  let ip := map fst (o_errors o) in
+  let rp := map e_path (sr_errors ref) in
+  match find (fun s => visible_failure_null (o_data o) s &&
+                       Nat.leb 2 (List.length (snd s)) &&     (* several errors are admissible here *)
+                       match at_site ip s, at_site rp s with
+                       | Some a, Some b => negb (path_eqb a b)
+                       | _, _ => false
+                       end) ss with
+  | Some s => Some (v_oracle_fail "admissible-error-differs" [of_path (fst s)])
+  | None => None
+  end.
+
 (** ** Evidence classes (computed from the plan and the schedule) *)
 Definition distinct_ranks (l : list nat) : bool :=
   match l with
@@ -293,7 +330,7 @@ Definition has_async_v (v : vplan) : bool :=
 
 Definition item_fails (v : vplan) : bool := match v with VNull | VBad => true | _ => false end.
 
-Definition classes (md : mode) (root : selset) (ranks : list nat) (ref : sresp) : list string :=
+Definition classes (md : mode) (root : selset) (ranks : list nat) (pre : list bool) (feat : list string) (ref : sresp) : list string :=
   let rv := VObj root in
   let split := v_exists (fun v => match v with VObj fs => distinct_ranks (direct_ranks ranks fs) | _ => false end)
                         (fun _ => false) rv in
@@ -314,6 +351,7 @@ Definition classes (md : mode) (root : selset) (ranks : list nat) (ref : sresp) 
   let nested := v_exists (fun _ => false)
                          (fun f => match f with FP (Some _) _ (Some v) => has_async_v v | _ => false end) rv in
   (if has_async_v rv then ["async"] else ["sync-only"]) ++
+  (if existsb (fun b => b) pre then ["prefilled-promise"] else []) ++ feat ++
   (match md with Mutation => ["mutation"] | Query => [] end) ++
   (if split then ["split-rounds"] else []) ++
   (if fail_nn then ["promise-fails-under-nonnull"] else []) ++
@@ -325,6 +363,10 @@ Definition classes (md : mode) (root : selset) (ranks : list nat) (ref : sresp) 
   (if split || fail_nn || pip then ["nontrivial"] else []).
 
 (** ** check *)
+(** [true] once known_findings.txt carries the line for key admissible-error-differs (./check then prints
+    KNOWN-FINDING and exits 0); until then such cases are counted as a class of their own *)
+Definition report_known_as_failure : bool := true.
+
 Fixpoint vsize (v : vplan) : nat :=
   match v with
   | VList _ items => S ((fix go (l : list vplan) : nat := match l with [] => 0 | x :: tl => vsize x + go tl end) items)
@@ -341,14 +383,22 @@ Definition check_case (c : tcase) : sexp :=
   | None =>
       let fuel := S (count_async root) in
       let jfuel := S (S (vsize (VObj root))) in
-      match run fixed_flags (sigma_ranks (c_ranks c)) (c_mode c) fuel jfuel root with
+      let pre := c_pre c in
+      let fl := with_prefill fixed_flags (fun t => nth (N.to_nat t) pre false) in
+      match run fl (sigma_ranks (c_ranks c)) (c_mode c) fuel jfuel root with
       | Done r =>
           if negb (data_eqb (r_data r) (o_data o)) then v_mismatch "data" []
           else if negb (paths_perm (map e_path (r_errors r)) (map fst (o_errors o))) then
                  v_mismatch "errors" [of_list of_path (map e_path (r_errors r))]
           else if negb (Nat.eqb (r_rounds r) (o_rounds o)) then v_mismatch "rounds" [of_nat (r_rounds r)]
           else if negb (Nat.eqb (r_promises r) (o_promises o)) then v_mismatch "promises" [of_nat (r_promises r)]
-          else v_ok (classes (c_mode c) root (c_ranks c) (run_sync root))
+          else if negb (events_eqb (r_events r) (o_events o)) then v_mismatch "events" []
+          else match soft_oracle root o with
+               | Some v =>
+                   if report_known_as_failure then v
+                   else v_ok ("admissible-error-differs" :: classes (c_mode c) root (c_ranks c) pre (c_feat c) (run_sync root))
+               | None => v_ok (classes (c_mode c) root (c_ranks c) pre (c_feat c) (run_sync root))
+               end
       | Stuck => v_mismatch "model-stuck" []
       | OutOfFuel => v_mismatch "model-out-of-fuel" []
       end
